@@ -597,6 +597,53 @@ func c12TypedCheck(key string, def bool) (string, string) {
 	return "", ""
 }
 
+// c12NestedStringTargets: string-kind targets BELOW a structured provider value - every leaf that is itself a whole-value
+// reference keeps its original text when the field it lands in is a string
+func c12NestedStringTargets(def bool) (string, string) {
+	resolve := func(key string, out any) error {
+		r, err := c12Resolver([]map[string]any{{"k": "${aa:" + key + "}"}}, def)
+		if err != nil {
+			return err
+		}
+		conf, err := r.Resolve(context.Background())
+		if err != nil {
+			return err
+		}
+		return conf.Unmarshal(out)
+	}
+	var t1 struct {
+		K map[string]string `mapstructure:"k"`
+	}
+	if err := resolve("MR3", &t1); err != nil || fmt.Sprint(t1.K) != fmt.Sprint(map[string]string{"a": "v", "b": "42", "c": "true"}) {
+		return "nested-string-target-mismatch:map", fmt.Sprintf("${aa:MR3} (a map whose leaves are references to a string, a number and a boolean) into map[string]string: got %v err=%v, want the original texts v / 42 / true", t1.K, err)
+	}
+	var t2 struct {
+		K []string `mapstructure:"k"`
+	}
+	if err := resolve("LR4", &t2); err != nil || fmt.Sprint(t2.K) != fmt.Sprint([]string{"v", "42", "v", "true"}) {
+		return "nested-string-target-mismatch:list", fmt.Sprintf("${aa:LR4} into []string: got %v err=%v, want [v 42 v true]", t2.K, err)
+	}
+	var t3 struct {
+		K struct {
+			M string   `mapstructure:"m"`
+			L []string `mapstructure:"l"`
+		} `mapstructure:"k"`
+	}
+	if err := resolve("MR", &t3); err != nil || t3.K.M != "42" || fmt.Sprint(t3.K.L) != "[v]" {
+		return "nested-string-target-mismatch:struct", fmt.Sprintf("${aa:MR} into a struct with a string and a []string field: got %+v err=%v, want m=42 l=[v]", t3.K, err)
+	}
+	var t4 struct {
+		K struct {
+			M int   `mapstructure:"m"`
+			L []any `mapstructure:"l"`
+		} `mapstructure:"k"`
+	}
+	if err := resolve("MR", &t4); err != nil || t4.K.M != 42 {
+		return "nested-typed-target-mismatch", fmt.Sprintf("${aa:MR} into a struct with an int field: got %+v err=%v, want m=42", t4.K, err)
+	}
+	return "", ""
+}
+
 // ---- merge
 func c12RefMerge(dst, src map[string]any) {
 	for k, v := range src {
@@ -707,6 +754,8 @@ func TestVerif(t *testing.T) {
 		switch c.Kind {
 		case "expand":
 			return c12Expand(c.S, c.Def)
+		case "nested-targets":
+			return c12NestedStringTargets(c.Def)
 		case "cycle":
 			// "Resolution always terminates, reporting an error for reference cycles"
 			for _, str := range []string{"${aa:" + c.Key + "}", "x${aa:" + c.Key + "}"} {
@@ -829,6 +878,9 @@ func TestVerif(t *testing.T) {
 		for _, k := range keys {
 			do(c12Case{Kind: "typed", Key: k, Def: def}, true)
 		}
+	}
+	for _, def := range []bool{false, true} {
+		do(c12Case{Kind: "nested-targets", Def: def}, true)
 	}
 	for _, def := range []bool{false, true} {
 		for _, k := range []string{"C", "C2", "C3", "CD", "CE"} {
